@@ -1,4 +1,5 @@
 import MidoProofs.SrcTie.Ports
+import MidoProofs.SrcTie.PortsIter
 #print axioms Mido.src_port_send
 #print axioms Mido.src_reset_loop
 #print axioms Mido.src_port_reset
@@ -8,3 +9,9 @@ import MidoProofs.SrcTie.Ports
 #print axioms Mido.src_port_poll
 #print axioms Mido.src_iter_pending_loop
 #print axioms Mido.src_port_iter_pending
+#print axioms Mido.src_port_receiveF
+#print axioms Mido.src_iter_all_loop
+#print axioms Mido.src_port_iter_all
+#print axioms Mido.recvLoop_mono
+#print axioms Mido.iterAllF_eq
+#print axioms Mido.src_port_iter
